@@ -13,7 +13,7 @@ C02_CAP = 20000
 FAMILY = {"F": "F", "F+": "multi-start", "K": "skeleton",
           "FB": "bunched-fork", "FS": "staged-merge", "FL": "lead-loop",
           "FK": "loop-on-break-path", "FD": "kill-in-loop",
-          "FX": "stretched"}
+          "FX": "stretched", "FE": "silent-break"}
 
 
 def handle(task):
@@ -32,7 +32,12 @@ def handle(task):
     runs = []
     from .. import present, impl_pv
     for pname in task["pres"]:
-        pv = present.present(jobs, PRES[pname])
+        if pname == "bulk":
+            # 1201 jobs, the last job of the set occurring once, just past
+            # the thousandth position
+            pv = present.present(jobs, {"bulk": [1201, len(jobs) - 1, 1000]})
+        else:
+            pv = present.present(jobs, PRES[pname])
         # schedule diversity at no extra cost: the reversed presentation also
         # runs under the reversed hash-rank order of created objects
         pi = task.get("pi") or ("rev" if pname == "reversed" else None)
